@@ -705,7 +705,7 @@ def c16(ctx):
     vlib.tlc_ok(r, "MCCalc")
     log("TLC MCCalc: %d states, %d distinct, %.0fs%s" % (r["states"], r["distinct"], r["wall_s"], (" VIOLATED " + str(r["violated"])) if r["violated"] else ""))
     def jobs(profile):
-        return [base_job(ctx, "history", "%s_hist" % profile, profile, n_seq=3000 if q else 100000, n_par=16000 if q else 400000, threads=16, event_cap=6000 if q else 30000, seed=ctx.seed)]
+        return [base_job(ctx, "history", "%s_hist" % profile, profile, n_seq=3000 if q else 100000, n_par=16000 if q else 400000, threads=16, event_cap=6000 if q else 30000, seed=ctx.seed, stall_s=300)]
     f, s = run_jobs(ctx, jobs)
     sv = [("MCCalc", r["violated"], r["log"])] if r["violated"] else []
     # the trace of one process must be validated in one piece (PureOK relates events to the isolated ones): no Reset between files, one chunk per file
